@@ -64,15 +64,24 @@ def static_check(binding, sites_list, repo="/repo"):
     current source; returns list of differences"""
     cur = {}
     calls = set("call." + c for c in binding.get("pinned_calls", []))
+    curctl = {}
     for s in sites_list:
         if s["op"].startswith("call.") and s["op"] not in calls:
             continue   # call pseudo-sites are opt-in per binding
-        cur.setdefault(f'{s["file"]}|{s["fn"]}', []).append([s["recv"], s["op"], ",".join(s["orderings"])])
+        row = [s["recv"], s["op"], ",".join(s["orderings"])]
+        curctl.setdefault(f'{s["file"]}|{s["fn"]}', []).append(row)
+        if s["op"].startswith("ctl."):
+            continue   # branch-skeleton pseudo-sites only count for the functions of `pinned_ctl`
+        cur.setdefault(f'{s["file"]}|{s["fn"]}', []).append(row)
     diffs = []
     for fn, exp in binding.get("pinned", {}).items():
         got = cur.get(fn)
         if got != exp:
             diffs.append({"fn": fn, "expected": exp, "found": got})
+    for fn, exp in binding.get("pinned_ctl", {}).items():
+        got = curctl.get(fn)
+        if got != exp:
+            diffs.append({"fn": fn + " (operations and branch skeleton)", "expected": exp, "found": got})
     for key, exp in binding.get("pinned_structs", {}).items():
         rel, name = key.split("|")
         import siteaudit as _SA
